@@ -119,7 +119,7 @@ fn get_props(c: &mut Cur) -> Properties {
 
 // ------------------------------------------------------------------ generators
 
-fn rand_string(rng: &mut Rng) -> String {
+pub fn rand_string(rng: &mut Rng) -> String {
   let n = match rng.below(10) {
     0 => 0,
     1 => *rng.pick(&[23usize, 24, 25, 255, 256, 257]),
@@ -139,7 +139,7 @@ fn rand_string(rng: &mut Rng) -> String {
   s
 }
 
-fn rand_trait(rng: &mut Rng) -> Trait {
+pub fn rand_trait(rng: &mut Rng) -> Trait {
   match rng.below(6) {
     0 => Trait::Bool(rng.chance(1, 2)),
     1 => Trait::Null,
@@ -155,7 +155,7 @@ fn rand_trait(rng: &mut Rng) -> Trait {
   }
 }
 
-fn rand_attrs(rng: &mut Rng, dup: bool) -> Attributes {
+pub fn rand_attrs(rng: &mut Rng, dup: bool) -> Attributes {
   let title = if rng.chance(1, 2) { Some(rand_string(rng)) } else { None };
   let k = match rng.below(6) {
     0..=2 => 0,
@@ -179,7 +179,7 @@ fn rand_attrs(rng: &mut Rng, dup: bool) -> Attributes {
   Attributes { title, traits: Traits { items } }
 }
 
-fn rand_props(rng: &mut Rng, dup: bool) -> Properties {
+pub fn rand_props(rng: &mut Rng, dup: bool) -> Properties {
   let k = match rng.below(8) {
     0..=1 => 0,
     2..=3 => 1,
@@ -220,7 +220,7 @@ fn has_dup(p: &Properties) -> bool {
   d(&p.attributes) || p.gallery.iter().any(|it| d(&it.attributes))
 }
 
-fn brotli_compress(data: &[u8]) -> Vec<u8> {
+pub fn brotli_compress(data: &[u8]) -> Vec<u8> {
   let mut w = brotli::CompressorWriter::new(Vec::new(), 4096, 9, 22);
   w.write_all(data).unwrap();
   w.into_inner()
@@ -263,7 +263,7 @@ fn candidates(p: &Properties) -> Vec<Vec<u8>> {
   v
 }
 
-fn malformed(rng: &mut Rng) -> Vec<u8> {
+pub fn malformed(rng: &mut Rng) -> Vec<u8> {
   let d = rng.chance(1, 8);
   let p = rand_props(rng, d);
   let base = if rng.chance(1, 2) { ord::verif::envelope::properties_to_inline_cbor(&p) } else { ord::verif::envelope::properties_to_packed_cbor(&p) }
